@@ -571,6 +571,15 @@ func c16E2E(res *lib.Result, tier string, root *lib.Rng) error {
 				blocks = append(blocks, bl)
 			}
 		}
+		{
+			// fixed block (never the corrupted one): an ---@alias declared in the same comment block as a ---@class, and a
+			// variable typed by that alias — the alias is a type like any other
+			bl := c16Block{use: "zqx", keep: map[int][]string{}}
+			bl.lines = append(bl.lines, fmt.Sprintf("---@class ZqCls%d", wi), "---@field zname string", fmt.Sprintf("---@alias ZqAl%d ZqCls%d | number", wi, wi), "local zqp = {}",
+				fmt.Sprintf("---@type ZqAl%d", wi), "local zqx = zqp")
+			bl.must = []string{"zname"}
+			blocks = append(blocks, bl)
+		}
 		render := func(cb, cl int, repl string) (string, int, []int) {
 			var out []string
 			corrLine := -1
@@ -652,12 +661,12 @@ func c16E2E(res *lib.Result, tier string, root *lib.Rng) error {
 			}
 		}
 		for k := range base.d18 {
-			if strings.Contains(k, "syntax error") || strings.Contains(k, ": GT") || strings.Contains(k, ": GK") {
+			if strings.Contains(k, "syntax error") || strings.Contains(k, ": GT") || strings.Contains(k, ": GK") || strings.Contains(k, ": ZqAl") || strings.Contains(k, ": ZqCls") {
 				res.AddViolation("impl-vs-spec", "a documented annotation line of a clean file gets the warning "+k, cleanSrc, false)
 			}
 		}
 		// corrupt one annotation line so that the real parser rejects it
-		cb := r.Intn(len(blocks))
+		cb := r.Intn(nb)
 		cl := blocks[cb].annot[r.Intn(len(blocks[cb].annot))]
 		orig := blocks[cb].lines[cl]
 		var repl string
